@@ -31,6 +31,7 @@ FAMILIES = {
     "long literal and comment": lambda n: "SELECT '" + "x" * (n * 5) + "' /* " + "c " * (n * 2) + "*/ FROM t -- " + "z" * n,
     "nested calls": lambda n: "SELECT " + "f(" * (n // 4) + ", ".join("1" for _ in range(n // 4)) + ")" * (n // 4) + " FROM t",
     "nested windows": lambda n: "SELECT " + "sum(1 + " * (n // 8) + "x" + " OVER (ORDER BY a))" * (n // 8) + " FROM t",
+    "rejected: nested tuples": lambda n: "SELECT " + "(" * min(12, n // 8) + "1" + ", 2)" * min(12, n // 8) + " IN (x) FROM t",
     "blanks": lambda n: "SELECT" + " " * (n * 4) + "a" + "\n" * n + "FROM\t\tt",
     "rejected: unterminated bracket at the end": lambda n: "SELECT " + ", ".join("c%d" % i for i in range(n)) + " FROM t WHERE (",
     "rejected: stray token at the end": lambda n: "SELECT " + ", ".join("c%d" % i for i in range(n)) + " FROM t WHERE a = 1 )",
@@ -107,7 +108,7 @@ def run(run):
                      "cursor_work": [table[k][n][1] for n in sizes if n in table.get(k, {})]} for k in list(table)[:4]],
                    extra={"families": list(FAMILIES), "worst_cursor_work_per_token": round(worst, 1)})
     run.add_stream("random statements and mutants", len(rnd), len(set(s for _, s in rnd)), [])
-    run.cov["rule"] = ("24 input patterns (lists, operator chains, rows, statements, nesting, joins, arms, DDL columns, long literals / comments / blanks, and near-miss "
+    run.cov["rule"] = ("25 input patterns (lists, operator chains, rows, statements, nesting, joins, arms, DDL columns, long literals / comments / blanks, and near-miss "
                        "inputs that fail at the last token) at sizes n, 2n, 4n, ...; plus random statements and malformed mutants; counters are wrapped around "
                        "FSMMachine.handle and every TokenScanner method from outside, the token list is a counting list subclass, every Python-level call inside the library is counted by a profile hook; wall time is not asserted")
     if (dis or not proofs_ok) and not fails:
